@@ -22,17 +22,24 @@ def parse_refresh(text):
     Returns:
         str, None
     '''
-    match = re.search(r'url\s*=(.+)', text, re.IGNORECASE)
+    # A time, a separator, and the rest is the URL; "URL =" in front of it
+    # is optional, white space around the "=" is skipped and a URL in quotes
+    # ends at the matching quote (HTML: shared declarative refresh steps).
+    match = re.match(r'\s*([0-9.]+[^;,]*)?[;,]?\s*(.*)', text, re.DOTALL)
+    has_time, url = bool(match.group(1)), match.group(2)
+    prefix_match = re.match(r'url\s*=\s*(.*)', url, re.IGNORECASE | re.DOTALL)
 
-    if match:
-        url = match.group(1)
+    if prefix_match:
+        url = prefix_match.group(1)
+    elif not has_time:
+        return None
 
-        if url.startswith('"'):
-            url = url.strip('"')
-        elif url.startswith("'"):
-            url = url.strip("'")
+    url = url.strip()
 
-        return clean_link_soup(url)
+    if url[:1] in ('"', "'"):
+        url = url[1:].split(url[0], 1)[0]
+
+    return clean_link_soup(url) or None
 
 
 def clean_link_soup(link):
